@@ -3,8 +3,8 @@
 # patch applies to /repo's HEAD, builds, existing tests of changed packages (and dependants) pass,
 # demo fails with the change and passes without it. Writes /tmp/seedtask/<Cxx>/out/<k>/confirm.json
 ID=$1; K=$2
-D=/tmp/seedtask/$ID/out/$K
-WT=/tmp/wt/$ID
+D=${SEEDROOT:-/tmp/seedtask}/$ID/out/$K
+WT=${WTDIR:-/tmp/wt/$ID}
 export GOFLAGS=-mod=mod GOPROXY=off GOSUMDB=off GOTOOLCHAIN=local
 cd $WT || exit 2
 git checkout -q --detach $(git -C /repo rev-parse HEAD) 2>/dev/null
@@ -17,20 +17,20 @@ echo "{"
 if git apply --check $D/patch.diff 2>/dev/null; then res applies true; else res applies false; echo "\"done\": true }"; exit 0; fi
 # demo without change
 cp $D/seeded_demo_test.go $DEMO
-if go test $RACEFLAG -vet=off -count=1 -run 'TestSeededDemo$' ./$PKGDIR/ >/tmp/seedtask/$ID/out/$K/demo_without.log 2>&1; then res demo_passes_without_change true; else res demo_passes_without_change false; fi
+if go test $RACEFLAG -vet=off -count=1 -run 'TestSeededDemo$' ./$PKGDIR/ >$D/demo_without.log 2>&1; then res demo_passes_without_change true; else res demo_passes_without_change false; fi
 rm -f $DEMO
 git apply $D/patch.diff
 PKGS=$(git diff --name-only | xargs -n1 dirname | sort -u | sed 's#^#./#')
-if go build ./... >/tmp/seedtask/$ID/out/$K/build.log 2>&1; then res build true; else res build false; fi
+if go build ./... >$D/build.log 2>&1; then res build true; else res build false; fi
 # dependants: run changed packages + a fixed set of cheap dependants
 EXTRA=""
 case "$PKGS" in *deadline*) EXTRA="./packetio ./dpipe ./udp ./test";; *packetio*) EXTRA="./udp";; esac
-if go test -vet=off -count=1 $PKGS $EXTRA >/tmp/seedtask/$ID/out/$K/existing.log 2>&1; then res existing_tests_pass true; else
+if go test -vet=off -count=1 $PKGS $EXTRA >$D/existing.log 2>&1; then res existing_tests_pass true; else
   # one retry for load-sensitive flakes
-  if go test -vet=off -count=1 $PKGS $EXTRA >/tmp/seedtask/$ID/out/$K/existing2.log 2>&1; then res existing_tests_pass true; else res existing_tests_pass false; fi
+  if go test -vet=off -count=1 $PKGS $EXTRA >$D/existing2.log 2>&1; then res existing_tests_pass true; else res existing_tests_pass false; fi
 fi
 cp $D/seeded_demo_test.go $DEMO
-if go test $RACEFLAG -vet=off -count=1 -run 'TestSeededDemo$' ./$PKGDIR/ >/tmp/seedtask/$ID/out/$K/demo_with.log 2>&1; then res demo_fails_with_change false; else res demo_fails_with_change true; fi
+if go test $RACEFLAG -vet=off -count=1 -run 'TestSeededDemo$' ./$PKGDIR/ >$D/demo_with.log 2>&1; then res demo_fails_with_change false; else res demo_fails_with_change true; fi
 rm -f $DEMO
 git checkout -q -- . ; git clean -fdq
 echo "\"head\": \"$(git -C /repo rev-parse --short HEAD)\", \"done\": true }"
